@@ -1,11 +1,217 @@
-(* C14 (work in progress: theorems are added below as they are proved) *)
-From Coq Require Import List ZArith NArith.
-From IB Require Import Combiners.Reservoir.
+(* C14: reservoir sampling - right size, real elements only, reproducible, mode-stable.
+   ONLY the property theorems (each closed by `exact`) and their non-vacuity examples.
+
+   Vocabulary (model: Combiners/Reservoir.v, a transcription of src/combiners/sampling.rs and of the
+   way helpers/sampling.rs + combine_global.rs + combine.rs + planner.rs + runner.rs drive it):
+     sample_parts k seed parts   the sample when the input reaches the combiner cut into the
+                                 partitions `parts` (per-partition accumulators merged left to
+                                 right, as runner.rs does with fanout = None); the input is
+                                 `concat parts`;
+     global_seq / global_par p   sample_reservoir collected sequentially / with p partitions
+                                 (`*_vec`: the one-element collection holding that sample);
+     keyed_parts / keyed_*       the same for sample_values_reservoir(_vec);
+     built k seed a m            accumulator a is reachable from create by ANY sequence of
+                                 add_input and merge steps (any merge tree), having consumed m;
+     InvK k a                    the accumulator invariant: heap entries = live slots of the
+                                 store (as multisets), alive = number of live slots, alive <= k.
+   "Sub-multiset" is stated by occurrence counts: nothing invented, nothing returned more often
+   than it occurs.  All theorems hold for every element type, every k (0 and k >= n included),
+   every seed and every partitioning. *)
+From Coq Require Import List ZArith NArith Bool Permutation.
+From IB Require Import Combiners.Reservoir Proofs.Reservoir Proofs.ReservoirKeyed
+  Proofs.ReservoirProps.
 Import ListNotations.
 
-Theorem c14_mode_stable_refuted :
-  exists (k : nat) (seed : N) (data : list Z),
-    global_seq k seed data <> global_par k seed 4 data.
+(* ---------- the accumulator invariant is established by create, kept by add_input and merge ---------- *)
+Theorem c14_invariant_preserved :
+  forall (T : Type) (k : nat) (seed : N),
+    InvK k (@create T k seed) /\
+    (forall (a : pracc T) (v : T), InvK k a -> InvK k (add a v)) /\
+    (forall a b : pracc T, InvK k a -> InvK k b -> InvK k (merge a b)).
+Proof. exact @invariant_preserved. Qed.
+
+Example c14_invariant_preserved_ex :
+  (* a trimmed accumulator with a tombstone: 3 values into k = 2 *)
+  let a := local 2 7%N [10; 20; 30]%Z in
+  InvK 2 a /\ palive a = 2 /\ length (pstore a) = 3 /\ length (pheap a) = 2.
 Proof.
-  exists 5, 42%N, (map Z.of_nat (seq 0 20)). vm_compute. discriminate.
+  cbv zeta. split.
+  - unfold local. cbn [fold_left].
+    destruct (c14_invariant_preserved Z 2 7%N) as [Hc [Ha _]].
+    apply Ha, Ha, Ha, Hc.
+  - vm_compute. repeat split; reflexivity.
+Qed.
+
+(* ---------- right size ---------- *)
+Theorem c14_sample_size :
+  forall (T : Type) (k : nat) (seed : N) (parts : list (list T)),
+    length (sample_parts k seed parts) = Nat.min k (length (concat parts)).
+Proof. exact @p_sample_size. Qed.
+
+Example c14_sample_size_ex :
+  length (sample_parts 3 42%N [[1; 2]; []; [3; 4; 5]; [6]]%Z) = 3 /\
+  length (sample_parts 9 42%N [[1; 2]; []; [3; 4; 5]; [6]]%Z) = 6 /\
+  length (sample_parts 0 42%N [[1; 2]; []; [3; 4; 5]; [6]]%Z) = 0.
+Proof. rewrite !c14_sample_size. vm_compute. repeat split; reflexivity. Qed.
+
+(* ---------- real elements only ---------- *)
+Theorem c14_sample_submultiset :
+  forall (T : Type) (dec : forall x y : T, {x = y} + {x <> y})
+         (k : nat) (seed : N) (parts : list (list T)) (x : T),
+    count_occ dec (sample_parts k seed parts) x <= count_occ dec (concat parts) x.
+Proof. exact @p_sample_submultiset. Qed.
+
+Example c14_sample_submultiset_ex :
+  (* input with duplicates: 7 occurs twice, the sample returns it at most twice *)
+  count_occ Z.eq_dec (sample_parts 4 1%N [[7; 1]; [7; 2; 3]]%Z) 7%Z <= 2 /\
+  sample_parts 4 1%N [[7; 1]; [7; 2; 3]]%Z = [3; 7; 7; 2]%Z.
+Proof.
+  split; [|vm_compute; reflexivity].
+  exact (c14_sample_submultiset Z Z.eq_dec 4 1%N [[7; 1]; [7; 2; 3]]%Z 7%Z).
+Qed.
+
+(* ---------- the same for every merge order / fan-in tree / interleaving of adds and merges ---------- *)
+Theorem c14_any_merge_order :
+  forall (T : Type) (dec : forall x y : T, {x = y} + {x <> y})
+         (k : nat) (seed : N) (a : pracc T) (m : list T),
+    built k seed a m ->
+    length (finish a) = Nat.min k (length m) /\
+    forall x, count_occ dec (finish a) x <= count_occ dec m x.
+Proof. exact @p_any_merge_order. Qed.
+
+Example c14_any_merge_order_ex :
+  (* right-nested merge with an add after a merge: merge(local [1;2], add(merge(local [3], local [4;5]), 6)) *)
+  let a := merge (local 2 5%N [1; 2]%Z)
+                 (add (merge (local 2 5%N [3]%Z) (local 2 5%N [4; 5]%Z)) 6%Z) in
+  built 2 5%N a [1; 2; 3; 4; 5; 6]%Z /\ length (finish a) = 2.
+Proof.
+  cbv zeta.
+  assert (B : built 2 5%N (merge (local 2 5%N [1; 2]%Z)
+                (add (merge (local 2 5%N [3]%Z) (local 2 5%N [4; 5]%Z)) 6%Z))
+                ([1; 2] ++ (([3] ++ [4; 5]) ++ [6]))%Z).
+  { apply built_merge; [apply built_local|]. apply built_add.
+    apply built_merge; apply built_local. }
+  split; [exact B|].
+  exact (proj1 (c14_any_merge_order Z Z.eq_dec 2 5%N _ _ B)).
+Qed.
+
+(* ---------- the two global entry points, sequential and parallel (runner partitioning) ---------- *)
+Theorem c14_global_entry_points :
+  forall (T : Type) (dec : forall x y : T, {x = y} + {x <> y})
+         (k : nat) (seed : N) (p : nat) (data : list T),
+    global_seq_vec k seed data = [global_seq k seed data] /\
+    global_par_vec k seed p data = [global_par k seed p data] /\
+    length (global_seq k seed data) = Nat.min k (length data) /\
+    length (global_par k seed p data) = Nat.min k (length data) /\
+    (forall x, count_occ dec (global_seq k seed data) x <= count_occ dec data x) /\
+    (forall x, count_occ dec (global_par k seed p data) x <= count_occ dec data x).
+Proof. exact @p_global_entry_points. Qed.
+
+Example c14_global_entry_points_ex :
+  global_par_vec 3 9%N 3 [5; 5; 6; 7; 8; 5; 9]%Z = [[5; 8; 5]]%Z /\
+  runner_split 3 [5; 5; 6; 7; 8; 5; 9]%Z = [[5; 5; 6]; [7; 8; 5]; [9]]%Z.
+Proof. vm_compute. split; reflexivity. Qed.
+
+(* ---------- per key: every key exactly once; per key right size and real elements only;
+   also for the flattened (key, value) form ---------- *)
+Theorem c14_per_key :
+  forall (T : Type) (dec : forall x y : T, {x = y} + {x <> y})
+         (K : Type) (keqb : K -> K -> bool),
+    (forall x y, reflect (x = y) (keqb x y)) ->
+    forall (k : nat) (seed : N) (parts : list (list (K * T))),
+      let data := concat parts in
+      let out := keyed_parts keqb k seed parts in
+      NoDup (map fst out) /\
+      (forall key, In key (map fst out) <-> In key (map fst data)) /\
+      (forall key s, In (key, s) out ->
+         length s = Nat.min k (length (vals keqb key data)) /\
+         forall x, count_occ dec s x <= count_occ dec (vals keqb key data) x) /\
+      (forall key,
+         let flat := vals keqb key (flatten_keyed out) in
+         length flat = Nat.min k (length (vals keqb key data)) /\
+         forall x, count_occ dec flat x <= count_occ dec (vals keqb key data) x).
+Proof. exact @p_per_key. Qed.
+
+Example c14_per_key_ex :
+  keyed_parts Z.eqb 2 3%N [[(1, 10); (2, 20); (1, 11)]; [(1, 12); (2, 21)]; [(3, 30)]]%Z
+  = [(1, [11; 12]); (2, [20; 21]); (3, [30])]%Z /\
+  vals Z.eqb 1%Z (concat [[(1, 10); (2, 20); (1, 11)]; [(1, 12); (2, 21)]; [(3, 30)]]%Z)
+  = [10; 11; 12]%Z.
+Proof. vm_compute. split; reflexivity. Qed.
+
+(* the four keyed observables are instances of keyed_parts whose partitions concatenate to the input *)
+Theorem c14_keyed_entry_points :
+  forall (T K : Type) (keqb : K -> K -> bool) (k : nat) (seed : N) (p : nat) (data : list (K * T)),
+    keyed_seq_vec keqb k seed data = keyed_parts keqb k seed [data] /\
+    keyed_par_vec keqb k seed p data = keyed_parts keqb k seed (runner_split p data) /\
+    keyed_seq keqb k seed data = flatten_keyed (keyed_seq_vec keqb k seed data) /\
+    keyed_par keqb k seed p data = flatten_keyed (keyed_par_vec keqb k seed p data) /\
+    concat [data] = data /\ concat (runner_split p data) = data.
+Proof. exact @p_keyed_entry_points. Qed.
+
+Example c14_keyed_entry_points_ex :
+  keyed_par Z.eqb 1 3%N 2 [(1, 10); (2, 20); (1, 11); (2, 21)]%Z = [(1, 11); (2, 21)]%Z.
+Proof. vm_compute. reflexivity. Qed.
+
+(* ---------- the per-key result does not depend on the HashMap iteration order inside merge ---------- *)
+Theorem c14_map_order_irrelevant :
+  forall (K T : Type) (keqb : K -> K -> bool),
+    (forall x y, reflect (x = y) (keqb x y)) ->
+    forall (k : nat) (seed : N) (m m' accs : list (K * pracc T)) (key : K),
+      NoDup (map fst m) -> Permutation m m' ->
+      lookup keqb key (cv_merge_one keqb k seed accs m) =
+      lookup keqb key (cv_merge_one keqb k seed accs m').
+Proof. exact @merge_one_order_irrelevant. Qed.
+
+Example c14_map_order_irrelevant_ex :
+  let m := cv_local Z.eqb 2 3%N [(1, 10); (2, 20); (1, 11)]%Z in
+  NoDup (map fst m) /\ Permutation m (rev m) /\ m <> rev m.
+Proof.
+  cbv zeta. split; [apply nodup_local; exact Z.eqb_spec|].
+  split; [apply Permutation_rev|]. vm_compute. discriminate.
+Qed.
+
+(* ---------- reproducible: the sample is a function of (k, seed, partitioning).  (Functional
+   determinism of the model; that the real code is this function is what the bit-exact
+   correspondence runs validate, each pipeline being built and run twice.) ---------- *)
+Theorem c14_reproducible :
+  forall (T : Type) (k1 k2 : nat) (seed1 seed2 : N) (parts1 parts2 : list (list T)),
+    k1 = k2 -> seed1 = seed2 -> parts1 = parts2 ->
+    sample_parts k1 seed1 parts1 = sample_parts k2 seed2 parts2.
+Proof. exact p_reproducible. Qed.
+
+Example c14_reproducible_ex :
+  sample_parts 2 42%N [[1; 2; 3]; [4; 5]]%Z = [1; 4]%Z /\
+  sample_parts 2 43%N [[1; 2; 3]; [4; 5]]%Z <> [1; 4]%Z.
+Proof. vm_compute. split; [reflexivity|discriminate]. Qed.
+
+(* ---------- mode stability: REFUTED.  The documented "identical for sequential and parallel
+   execution" fails on the faithful model (and on the real code: known finding
+   C14-mode-instability): every partition restarts the same random stream, so the priority of an
+   element depends on its position inside its partition. ---------- *)
+Theorem c14_mode_stable_refuted :
+  let data := map Z.of_nat (seq 0 20) in
+  global_seq 5 42%N data = [15; 11; 19; 9; 4]%Z /\
+  global_par 5 42%N 4 data = [4; 9; 14; 19; 18]%Z /\
+  ~ Permutation (global_seq 5 42%N data) (global_par 5 42%N 4 data).
+Proof. exact p_mode_stable_refuted. Qed.
+
+(* ---------- mode stability outside the known-finding class: two partitionings of the same input
+   give the same sample (as a multiset) when k = 0, when k >= n, or when the partitionings
+   coincide.  (For k >= n the ORDER of the returned vector may still differ.) ---------- *)
+Theorem c14_mode_stable_outside_class :
+  forall (T : Type) (k : nat) (seed : N) (parts1 parts2 : list (list T)),
+    concat parts1 = concat parts2 ->
+    k = 0 \/ length (concat parts1) <= k \/ parts1 = parts2 ->
+    Permutation (sample_parts k seed parts1) (sample_parts k seed parts2).
+Proof. exact @p_mode_stable_outside_class. Qed.
+
+Example c14_mode_stable_outside_class_ex :
+  (* k >= n: same elements, different order *)
+  sample_parts 4 42%N [[1; 2; 3; 4]]%Z = [4; 1; 2; 3]%Z /\
+  sample_parts 4 42%N [[1; 2]; [3; 4]]%Z = [1; 3; 2; 4]%Z /\
+  Permutation (sample_parts 4 42%N [[1; 2; 3; 4]]%Z) (sample_parts 4 42%N [[1; 2]; [3; 4]]%Z).
+Proof.
+  split; [vm_compute; reflexivity|]. split; [vm_compute; reflexivity|].
+  apply c14_mode_stable_outside_class; [reflexivity|]. right. left. cbn. auto.
 Qed.
